@@ -95,6 +95,40 @@ func (l *logSink) logger(level hclog.Level) hclog.Logger {
 	return hclog.New(&hclog.LoggerOptions{Name: "sut", Level: level, Output: l, JSONFormat: true})
 }
 
+// ---------------------------------------------------------------- log gate
+
+// gateLogger wraps the server's logger (a user-supplied object) and parks the goroutine that logs a message
+// containing Pattern - once - until Release is closed. It turns gldap's own log statements into schedule points
+// without touching gldap's code.
+type gateLogger struct {
+	hclog.Logger
+	Pattern string
+	Reached chan struct{}
+	Release chan struct{}
+	once    sync.Once
+}
+
+func newGateLogger(inner hclog.Logger, pattern string) *gateLogger {
+	return &gateLogger{Logger: inner, Pattern: pattern, Reached: make(chan struct{}), Release: make(chan struct{})}
+}
+
+func (g *gateLogger) gate(msg string) {
+	if g.Pattern != "" && strings.Contains(msg, g.Pattern) {
+		g.once.Do(func() {
+			close(g.Reached)
+			select {
+			case <-g.Release:
+			case <-time.After(patience):
+			}
+		})
+	}
+}
+
+func (g *gateLogger) Debug(msg string, args ...interface{}) { g.gate(msg); g.Logger.Debug(msg, args...) }
+func (g *gateLogger) Info(msg string, args ...interface{})  { g.gate(msg); g.Logger.Info(msg, args...) }
+func (g *gateLogger) Error(msg string, args ...interface{}) { g.gate(msg); g.Logger.Error(msg, args...) }
+func (g *gateLogger) IsDebug() bool                         { return true }
+
 // ---------------------------------------------------------------- server
 
 // SrvCfg configures a server under test.
